@@ -61,6 +61,31 @@ def strategy(unit):
     return _case(unit)
 
 
+FUZZ_RUNS = 6000
+
+
+def fuzz_case(fdp):
+    """Decode a libFuzzer byte string into a case (coverage-guided secondary engine of the thorough tier)."""
+    J = fdp.ConsumeIntInRange(1, 4)
+    o, ri = LAYOUTS[fdp.ConsumeIntInRange(0, len(LAYOUTS) - 1)]
+
+    def mask():
+        k = fdp.ConsumeIntInRange(0, 3)
+        if k == 0:
+            return [False] * J
+        if k == 1:
+            return True
+        bits = fdp.ConsumeIntInRange(0, 15)
+        return [bool(bits >> j & 1) for j in range(J)]
+    return {'biort': dtu.BIORTS[fdp.ConsumeIntInRange(0, 3)], 'qshift': dtu.QSHIFTS[fdp.ConsumeIntInRange(0, 5)], 'J': J,
+            'size': [fdp.ConsumeIntInRange(2, 24), fdp.ConsumeIntInRange(2, 24)],
+            'N': fdp.ConsumeIntInRange(1, 2), 'C': fdp.ConsumeIntInRange(1, 3), 'o_dim': o, 'ri_dim': ri,
+            'skip': mask(), 'scales': mask(), 'mode': ['symmetric', 'symmetric', 'zero'][fdp.ConsumeIntInRange(0, 2)],
+            'dtype': ['f64', 'f32'][fdp.ConsumeIntInRange(0, 1)],
+            'rx': {'kind': core.RECIPE_KINDS[fdp.ConsumeIntInRange(0, len(core.RECIPE_KINDS) - 1)],
+                   'seed': fdp.ConsumeIntInRange(0, 255), 'scale': [0, 0, 3, -3][fdp.ConsumeIntInRange(0, 3)]}}
+
+
 def canon(t, o, ri):
     """Move the orientation axis to 2 and the real/imag axis to 5."""
     o %= 6
